@@ -186,3 +186,140 @@ REG.contract('C11', I, 'Installer.do_copydir', variant='files-of-one-directory',
              effects={'isdir': {'returns': Bool, 'raises': []}}, opaque_fns={'relpath': ([Str, Opt(Str)], Str)},
              method_effects={'self.makedirs': [], 'makedirs': [], 'copystat': [], 'do_copyfile': {'returns': Bool, 'raises': []}, 'set_mode': []},
              floor=6, note='the per-file loop of do_copydir for one directory of the walk: no directory is created except through the DirMaker; each copied file then gets set_mode(destination, install_mode, install_umask)')
+
+# ---- install_emptydir for ANY number of entries (loop invariant over ghost sequences of the effects).  bs = the answers of
+# should_install in order; entry k, if selected, is the nsel(bs, k)-th installed one: its destination is computed from (destdir,
+# prefix, ITS path), that directory is created through the DirMaker and gets set_mode(destination, ITS install_mode, install_umask).
+import specs.install, lemmas.install
+_LINK_E = ("forall(Int, lambda k: implies(0 <= k and k < len(bs) and bs[k], 0 <= nsel(bs, k) and nsel(bs, k) < len(gdp) and "
+           "gdp[nsel(bs, k)] == attr_path(d.emptydir[k]) and smm[nsel(bs, k)] is attr_install_mode(d.emptydir[k])))")
+_SHAPE_E = ("len(gdp) == nsel(bs, len(bs)) and len(gdr) == len(gdp) and len(mkp) == len(gdp) and len(mkd) == len(gdp) and len(smp) == len(gdp) "
+            "and len(smm) == len(gdp) and len(smu) == len(gdp) and len(gdd) == len(gdp) and len(gdf) == len(gdp)")
+_EACH_E = ("forall(Int, lambda j: implies(0 <= j and j < len(gdp), mkd[j] is dm and mkp[j] == gdr[j] and smp[j] == gdr[j] and smu[j] == d.install_umask "
+           "and gdd[j] == destdir and gdf[j] == fullprefix))")
+REG.contract('C11', I, 'Installer.install_emptydir', variant='any-number',
+             params={'self': Struct('Installer', 'mesonbuild.minstall:Installer', did_install_something=Bool),
+                     'd': Struct('InstallData', 'mesonbuild.backend.backends:InstallData', emptydir=List(Obj), install_umask=Int),
+                     'dm': Obj, 'destdir': Str, 'fullprefix': Str},
+             ensures=["len(sia) == len(d.emptydir) and len(bs) == len(d.emptydir)",
+                      "forall(Int, lambda k: implies(0 <= k and k < len(d.emptydir), sia[k] is d.emptydir[k]))",
+                      _SHAPE_E, _EACH_E, _LINK_E,
+                      "new(self).did_install_something == (self.did_install_something or len(gdp) > 0)"],
+             raises={'SystemExit': 'True'}, exact_raises=False,
+             loops={0: Loop(invariant=["len(sia) == __i and len(bs) == __i", "forall(Int, lambda k: implies(0 <= k and k < __i, sia[k] is d.emptydir[k]))",
+                                       _SHAPE_E, _EACH_E, _LINK_E,
+                                       "self.did_install_something == (old_self.did_install_something or len(gdp) > 0)"],
+                            locals={'e': Obj, 'full_dst_dir': Str})},
+             ghost_seqs={'sia': ('should_install', 1, Obj), 'bs': ('should_install', -1, Bool),
+                         'gdd': ('get_destdir_path', 1, Str), 'gdf': ('get_destdir_path', 2, Str), 'gdp': ('get_destdir_path', 3, Str), 'gdr': ('get_destdir_path', -1, Str),
+                         'mkd': ('makedirs', 1, Obj), 'mkp': ('makedirs', 2, Str),
+                         'smp': ('set_mode', 1, Str), 'smm': ('set_mode', 2, Obj), 'smu': ('set_mode', 3, Int)},
+             opaque_attrs={'path': Str, 'install_mode': Obj},
+             effects={'get_destdir_path': {'returns': Str, 'raises': []}, 'isfile': {'returns': Bool, 'raises': []}},
+             method_effects={'should_install': {'returns': Bool, 'raises': []}, 'log': [], 'makedirs': [], 'set_mode': []},
+             modifies=['self.did_install_something'], floor=6, shards=4,
+             uses=[('L11.nsel_prefix', {'bs': '*', 'x': '*', 'n': '*'}), ('L11.nsel_unfold', {'bs': '*', 'n': '*'}), ('L11.nsel_range', {'bs': '*', 'n': '*'})],
+             note='ANY number of entries: should_install is asked for every entry in order; each selected entry gets its destination computed from (destdir, prefix, its path), the directory created through the DirMaker and then set_mode(destination, its install_mode, install_umask) — whether or not the directory existed')
+
+# ---- install_data / install_man / install_headers for ANY number of entries: entry k, if selected, is the nsel(bs, k)-th copied one:
+# its source is ITS path, its destination is computed from (destdir, prefix, ITS install path), missing directories are made through
+# the DirMaker, and then set_mode(destination, ITS install_mode, install_umask) — whatever the copy reports.  Something counts as
+# installed iff some copy says so (cpr = the answers of do_copyfile).
+for fn_, field_, hdr_, var_ in (('install_data', 'data', False, 'i'), ('install_man', 'man', False, 'm'), ('install_headers', 'headers', True, 't')):
+    E_ = f"d.{field_}"
+    DST_ = "os.path.join(gdr[j], os.path.basename(cps[j]))" if hdr_ else "gdr[j]"
+    DIR_ = "gdr[j]" if hdr_ else "os.path.dirname(gdr[j])"
+    _SHAPE = ("len(gdp) == nsel(bs, len(bs)) and len(gdr) == len(gdp) and len(cps) == len(gdp) and len(cpd) == len(gdp) and len(cpr) == len(gdp) and len(cmd) == len(gdp) "
+              "and len(cmo) == len(gdp) and len(smp) == len(gdp) and len(smm) == len(gdp) and len(smu) == len(gdp) and len(gdd) == len(gdp) and len(gdf) == len(gdp)")
+    _EACHS = [f"forall(Int, lambda j: implies(0 <= j and j < len(gdp), {c_}))" for c_ in
+              (f"cpd[j] == {DST_}", f"smp[j] == {DST_}", f"cmd[j] is dm and cmo[j] == {DIR_}", "smu[j] == d.install_umask", "gdd[j] == destdir and gdf[j] == fullprefix")]
+    _LINK = (f"forall(Int, lambda k: implies(0 <= k and k < len(bs) and bs[k], 0 <= nsel(bs, k) and nsel(bs, k) < len(gdp) and "
+             f"gdp[nsel(bs, k)] == attr_install_path({E_}[k]) and cps[nsel(bs, k)] == attr_path({E_}[k]) and smm[nsel(bs, k)] is attr_install_mode({E_}[k])))")
+    REG.contract('C11', I, f'Installer.{fn_}', variant='any-number',
+                 params={'self': Struct('Installer', 'mesonbuild.minstall:Installer', did_install_something=Bool),
+                         'd': Struct('InstallData', 'mesonbuild.backend.backends:InstallData', install_umask=Int, **{field_: List(Obj)}),
+                         'dm': Obj, 'destdir': Str, 'fullprefix': Str},
+                 ensures=[f"len(sia) == len({E_}) and len(bs) == len({E_})",
+                          f"forall(Int, lambda k: implies(0 <= k and k < len({E_}), sia[k] is {E_}[k]))",
+                          _SHAPE, *_EACHS, _LINK,
+                          "new(self).did_install_something == (self.did_install_something or nsel(cpr, len(cpr)) > 0)"],
+                 loops={0: Loop(invariant=["len(sia) == __i and len(bs) == __i", f"forall(Int, lambda k: implies(0 <= k and k < __i, sia[k] is {E_}[k]))",
+                                           _SHAPE, *_EACHS, _LINK,
+                                           "self.did_install_something == (old_self.did_install_something or nsel(cpr, len(cpr)) > 0)"],
+                                locals={var_: Obj, 'fullfilename': Str, 'full_source_filename': Str, 'outfilename': Str, 'outdir': Str, 'fname': Str})},
+                 ghost_seqs={'sia': ('should_install', 1, Obj), 'bs': ('should_install', -1, Bool),
+                             'gdd': ('get_destdir_path', 1, Str), 'gdf': ('get_destdir_path', 2, Str), 'gdp': ('get_destdir_path', 3, Str), 'gdr': ('get_destdir_path', -1, Str),
+                             'cps': ('do_copyfile', 1, Str), 'cpd': ('do_copyfile', 2, Str), 'cpr': ('do_copyfile', -1, Bool),
+                             'cmd': ('do_copyfile', ('makedirs', 0), Obj), 'cmo': ('do_copyfile', ('makedirs', 1), Str),
+                             'smp': ('set_mode', 1, Str), 'smm': ('set_mode', 2, Obj), 'smu': ('set_mode', 3, Int)},
+                 opaque_attrs={'path': Str, 'install_path': Str, 'install_mode': Obj, 'follow_symlinks': Opt(Bool)},
+                 effects={'get_destdir_path': {'returns': Str, 'raises': []}},
+                 method_effects={'should_install': {'returns': Bool, 'raises': []}, 'do_copyfile': {'returns': Bool, 'raises': []}, 'set_mode': []},
+                 modifies=['self.did_install_something'], floor=6, shards=4,
+                 uses=[('L11.nsel_prefix', {'bs': '*', 'x': '*', 'n': '*'}), ('L11.nsel_unfold', {'bs': '*', 'n': '*'}), ('L11.nsel_range', {'bs': '*', 'n': '*'})],
+                 note='ANY number of entries: should_install is asked for every entry in order; each selected entry is copied from its source to its destination (' + ('the header directory joined with the base name of the source' if hdr_ else 'computed from destdir, prefix and its install path') + '), directories being made through the DirMaker, and then set_mode(destination, its install_mode, install_umask) is applied — also when the copy reports that nothing had to be done; something was installed iff some copy says so')
+
+# ---- install_subdirs for ANY number of entries: entry k, if selected, is the nsel(bs, k)-th copied tree: its destination is computed
+# from (destdir, prefix, ITS install path) and created through the DirMaker, and the tree is copied there from ITS source with ITS
+# excludes, ITS mode and ITS follow_symlinks setting.
+_SHAPE_S = ("len(gdp) == nsel(bs, len(bs)) and len(gdr) == len(gdp) and len(mkd) == len(gdp) and len(mkp) == len(gdp) and len(cdd) == len(gdp) and len(cds) == len(gdp) "
+            "and len(cdt) == len(gdp) and len(cdx) == len(gdp) and len(cdm) == len(gdp) and len(cdk) == len(gdp) and len(cdf) == len(gdp) and len(gdd) == len(gdp) and len(gdf) == len(gdp)")
+_EACHS_S = [f"forall(Int, lambda j: implies(0 <= j and j < len(gdp), {c_}))" for c_ in
+            ("mkd[j] is dm and mkp[j] == gdr[j]", "cdt[j] == gdr[j] and cdd[j] is d and cdk[j] is dm", "gdd[j] == destdir and gdf[j] == fullprefix")]
+_LINK_S = ("forall(Int, lambda k: implies(0 <= k and k < len(bs) and bs[k], 0 <= nsel(bs, k) and nsel(bs, k) < len(gdp) and "
+           "gdp[nsel(bs, k)] == attr_install_path(d.install_subdirs[k]) and cds[nsel(bs, k)] == attr_path(d.install_subdirs[k]) and "
+           "cdx[nsel(bs, k)] is attr_exclude(d.install_subdirs[k]) and cdm[nsel(bs, k)] is attr_install_mode(d.install_subdirs[k]) and "
+           "cdf[nsel(bs, k)] == attr_follow_symlinks(d.install_subdirs[k])))")
+REG.contract('C11', I, 'Installer.install_subdirs', variant='any-number',
+             params={'self': Struct('Installer', 'mesonbuild.minstall:Installer', did_install_something=Bool),
+                     'd': Struct('InstallData', 'mesonbuild.backend.backends:InstallData', install_subdirs=List(Obj)), 'dm': Obj, 'destdir': Str, 'fullprefix': Str},
+             ensures=["len(sia) == len(d.install_subdirs) and len(bs) == len(d.install_subdirs)",
+                      "forall(Int, lambda k: implies(0 <= k and k < len(d.install_subdirs), sia[k] is d.install_subdirs[k]))",
+                      _SHAPE_S, *_EACHS_S, _LINK_S,
+                      "new(self).did_install_something == (self.did_install_something or len(gdp) > 0)"],
+             loops={0: Loop(invariant=["len(sia) == __i and len(bs) == __i", "forall(Int, lambda k: implies(0 <= k and k < __i, sia[k] is d.install_subdirs[k]))",
+                                       _SHAPE_S, *_EACHS_S, _LINK_S,
+                                       "self.did_install_something == (old_self.did_install_something or len(gdp) > 0)"],
+                            locals={'i': Obj, 'full_dst_dir': Str})},
+             ghost_seqs={'sia': ('should_install', 1, Obj), 'bs': ('should_install', -1, Bool),
+                         'gdd': ('get_destdir_path', 1, Str), 'gdf': ('get_destdir_path', 2, Str), 'gdp': ('get_destdir_path', 3, Str), 'gdr': ('get_destdir_path', -1, Str),
+                         'mkd': ('makedirs', 1, Obj), 'mkp': ('makedirs', 2, Str),
+                         'cdd': ('do_copydir', 1, Obj), 'cds': ('do_copydir', 2, Str), 'cdt': ('do_copydir', 3, Str), 'cdx': ('do_copydir', 4, Obj),
+                         'cdm': ('do_copydir', 5, Obj), 'cdk': ('do_copydir', 6, Obj), 'cdf': ('do_copydir', 'follow_symlinks', Bool)},
+             opaque_attrs={'path': Str, 'install_path': Str, 'install_mode': Obj, 'exclude': Obj, 'follow_symlinks': Bool},
+             effects={'get_destdir_path': {'returns': Str, 'raises': []}},
+             method_effects={'should_install': {'returns': Bool, 'raises': []}, 'do_copydir': [], 'makedirs': [], 'log': []},
+             modifies=['self.did_install_something'], floor=6, shards=4,
+             uses=[('L11.nsel_prefix', {'bs': '*', 'x': '*', 'n': '*'}), ('L11.nsel_unfold', {'bs': '*', 'n': '*'}), ('L11.nsel_range', {'bs': '*', 'n': '*'})],
+             note='ANY number of entries: each selected subdirectory gets its destination (re-rooted) created through the DirMaker and its tree copied there with ITS excludes, mode and follow_symlinks setting (follow_symlinks read as a two-valued setting here; the one-entry contract covers None)')
+
+# ---- install_symlinks for ANY number of entries: two destination computations per selected entry (directory, link name)
+_SHAPE_L = ("len(lnt) == nsel(bs, len(bs)) and len(gdp) == 2 * len(lnt) and len(gdr) == len(gdp) and len(gdd) == len(gdp) and len(gdf) == len(gdp) and len(mkd) == len(lnt) "
+            "and len(mkp) == len(lnt) and len(lnn) == len(lnt) and len(lnd) == len(lnt) and len(lnf) == len(lnt) and len(lnr) == len(lnt)")
+_EACHS_L = [f"forall(Int, lambda j: implies(0 <= j and j < len(lnt), {c_}))" for c_ in
+            ("mkd[j] is dm and mkp[j] == gdr[2 * j]", "lnn[j] == gdr[2 * j + 1] and lnd[j] == destdir and lnf[j] == gdr[2 * j]")] + \
+           ["forall(Int, lambda j: implies(0 <= j and j < len(gdp), gdd[j] == destdir and gdf[j] == fullprefix))"]
+_LINK_L = ("forall(Int, lambda k: implies(0 <= k and k < len(bs) and bs[k], 0 <= nsel(bs, k) and nsel(bs, k) < len(lnt) and "
+           "gdp[2 * nsel(bs, k)] == attr_install_path(d.symlinks[k]) and gdp[2 * nsel(bs, k) + 1] == attr_name(d.symlinks[k]) and "
+           "lnt[nsel(bs, k)] == attr_target(d.symlinks[k])))")
+REG.contract('C11', I, 'Installer.install_symlinks', variant='any-number',
+             params={'self': Struct('Installer', 'mesonbuild.minstall:Installer', did_install_something=Bool),
+                     'd': Struct('InstallData', 'mesonbuild.backend.backends:InstallData', symlinks=List(Obj)), 'dm': Obj, 'destdir': Str, 'fullprefix': Str},
+             ensures=["len(sia) == len(d.symlinks) and len(bs) == len(d.symlinks)",
+                      "forall(Int, lambda k: implies(0 <= k and k < len(d.symlinks), sia[k] is d.symlinks[k]))",
+                      _SHAPE_L, *_EACHS_L, _LINK_L,
+                      "new(self).did_install_something == (self.did_install_something or nsel(lnr, len(lnr)) > 0)"],
+             loops={0: Loop(invariant=["len(sia) == __i and len(bs) == __i", "forall(Int, lambda k: implies(0 <= k and k < __i, sia[k] is d.symlinks[k]))",
+                                       _SHAPE_L, *_EACHS_L, _LINK_L,
+                                       "self.did_install_something == (old_self.did_install_something or nsel(lnr, len(lnr)) > 0)"],
+                            locals={'s': Obj, 'full_dst_dir': Str, 'full_link_name': Str})},
+             ghost_seqs={'sia': ('should_install', 1, Obj), 'bs': ('should_install', -1, Bool),
+                         'gdd': ('get_destdir_path', 1, Str), 'gdf': ('get_destdir_path', 2, Str), 'gdp': ('get_destdir_path', 3, Str), 'gdr': ('get_destdir_path', -1, Str),
+                         'mkd': ('makedirs', 1, Obj), 'mkp': ('makedirs', 2, Str),
+                         'lnt': ('do_symlink', 1, Str), 'lnn': ('do_symlink', 2, Str), 'lnd': ('do_symlink', 3, Str), 'lnf': ('do_symlink', 4, Str), 'lnr': ('do_symlink', -1, Bool)},
+             opaque_attrs={'target': Str, 'name': Str, 'install_path': Str},
+             effects={'get_destdir_path': {'returns': Str, 'raises': []}},
+             method_effects={'should_install': {'returns': Bool, 'raises': []}, 'do_symlink': {'returns': Bool, 'raises': []}, 'makedirs': []},
+             modifies=['self.did_install_something'], floor=6, shards=4,
+             uses=[('L11.nsel_prefix', {'bs': '*', 'x': '*', 'n': '*'}), ('L11.nsel_unfold', {'bs': '*', 'n': '*'}), ('L11.nsel_range', {'bs': '*', 'n': '*'})],
+             note='ANY number of entries: each selected symlink: its directory (re-rooted) is created through the DirMaker, then the link is made under its re-rooted name with exactly the declared target text; something was installed iff some do_symlink says so')
